@@ -223,6 +223,9 @@ func (m *SessionManager) CreateSession(clientMAC, serverMAC net.HardwareAddr) (*
 	m.sessions[m.nextID] = session
 	m.macToSession[clientMAC.String()] = m.nextID
 	m.nextID++
+	if m.nextID == 0 {
+		m.nextID = 1 // Skip 0 (also when the counter wraps right after issuing 65535)
+	}
 
 	return session, nil
 }
